@@ -17,13 +17,16 @@ pub fn uid(args: &[&str]) -> String {
             let mut v = vec![];
             for i in 0..n {
                 // alternate the two public ways of getting a fresh scope
-                let u = if i % 2 == 0 {
+                // alternate the three public ways of getting a fresh scope
+                let u = if i % 3 == 0 {
                     match portus::lang::compile(SRC.as_bytes(), &[]) {
                         Ok((_, sc)) => sc.program_uid,
                         Err(_) => return "ERR".into(),
                     }
-                } else {
+                } else if i % 3 == 1 {
                     Scope::new().program_uid
+                } else {
+                    Scope::default().program_uid
                 };
                 v.push(u);
             }
@@ -98,7 +101,18 @@ pub fn uid(args: &[&str]) -> String {
                 Err(_) => return "ERR".into(),
             };
             let wire = u32::from_le_bytes([b[8], b[9], b[10], b[11]]);
-            format!("FLOW install_eq={} clone_eq={}", wire == sc.program_uid, cl.program_uid == sc.program_uid)
+            // every way of copying a scope keeps its uid: clone, clone_from, and the clone_from of containers
+            let mut d = Scope::new();
+            d.clone_from(&sc);
+            let mut od: Option<Scope> = Some(Scope::new());
+            od.clone_from(&Some(sc.clone()));
+            let mut vd: Vec<Scope> = vec![Scope::new(), Scope::new()];
+            vd.clone_from(&vec![sc.clone(), sc.clone()]);
+            let copies_ok = cl.program_uid == sc.program_uid
+                && d.program_uid == sc.program_uid
+                && od.map(|x| x.program_uid) == Some(sc.program_uid)
+                && vd.iter().all(|x| x.program_uid == sc.program_uid);
+            format!("FLOW install_eq={} clone_eq={}", wire == sc.program_uid, copies_ok)
         }
         _ => "BADARG".into(),
     }
